@@ -144,18 +144,8 @@ static std::string mutate_text(const std::string &t, SplitMix &g, std::string &h
 }
 
 // of a line-based text (PublishGroup / PublishState).  `counts` = indices of the count lines, [qlo, qhi) = the
-// lines of the QUAL members (never blanked: the library reads an uninitialised variable there)
-struct LineInfo { std::vector<size_t> counts; std::vector<std::pair<size_t, size_t> > q;
-	bool in_q(size_t L) const { for (auto &r : q) if (L >= r.first && L < r.second) return true; return false; } };
-// a truncated text that ends right before a QUAL member line would make the library read an uninitialised
-// variable (`size_t who;` stays unset when the line is missing): end such a text inside the previous line
-static std::string guard_trunc(std::string r, const LineInfo &li)
-{
-	if (!r.empty() && r.back() != '\n') return r;
-	size_t nlines = std::count(r.begin(), r.end(), '\n');
-	if (li.in_q(nlines) && !r.empty()) r.pop_back();
-	return r;
-}
+// lines of the QUAL members (blank, missing and cut member lines are mutations of their own: `who = n` then throws)
+struct LineInfo { std::vector<size_t> counts; std::vector<std::pair<size_t, size_t> > q; };
 static std::string mutate_lines(const std::string &t, const LineInfo &li, SplitMix &g, std::string &how)
 {
 	std::vector<std::string> ls; { size_t a = 0; while (a < t.size()) { size_t b = t.find('\n', a); if (b == t.npos) { ls.push_back(t.substr(a)); break; } ls.push_back(t.substr(a, b - a)); a = b + 1; } }
@@ -164,9 +154,21 @@ static std::string mutate_lines(const std::string &t, const LineInfo &li, SplitM
 	if (ls.empty()) { how = "garbage"; return "#\n"; }
 	size_t L = g.below(ls.size());
 	static const char *cvals[] = { "0", "1", "2", "7", "8", "255", "256", "257", "-1", "+3", " 3", "3 ", "3x", "x3", "18446744073709551615", "18446744073709551616", "99999999999999999999999", "0x10", "007", "-0", "+", "-", " ", "" };
+	// mutations aimed at the QUAL member lines (when there are any)
+	std::vector<size_t> ql; for (auto &r : li.q) for (size_t x = r.first; x < r.second && x < ls.size(); x++) ql.push_back(x);
+	if (!ql.empty() && g.below(5) == 0) {
+		size_t Q = ql[g.below(ql.size())];
+		switch (g.below(5)) {
+		case 0: how = "qual-blank"; ls[Q] = g.coin() ? "" : (g.coin() ? " " : "\t \r"); return join(ls, final_nl);
+		case 1: how = "qual-truncate-before"; ls.resize(Q); return join(ls, true);                    // the text ends where a member line should start
+		case 2: how = "qual-truncate-inside"; ls.resize(Q + 1); return join(ls, false);                // … or inside a member line (no newline)
+		case 3: how = "qual-delete-line"; ls.erase(ls.begin() + Q); return join(ls, final_nl);
+		default: how = "qual-nondigit"; ls[Q] = g.coin() ? "x" : (g.coin() ? "-" : " +"); return join(ls, final_nl);
+		}
+	}
 	switch (g.below(16)) {
-	case 0: how = "truncate-char"; return guard_trunc(t.substr(0, g.below(t.size() + 1)), li);
-	case 1: how = "truncate-lines"; { size_t keep = g.below(ls.size()); ls.resize(keep); return guard_trunc(join(ls, true), li); }
+	case 0: how = "truncate-char"; return t.substr(0, g.below(t.size() + 1));
+	case 1: how = "truncate-lines"; { size_t keep = g.below(ls.size()); ls.resize(keep); return join(ls, true); }
 	case 2: how = "truncate-final-newline"; return join(ls, false);
 	case 3: how = "extra-line-end"; ls.push_back(g.coin() ? "7" : "zz#"); return join(ls, true);
 	case 4: how = "extra-line"; ls.insert(ls.begin() + L, g.coin() ? "5" : "1"); return join(ls, final_nl);
@@ -178,16 +180,15 @@ static std::string mutate_lines(const std::string &t, const LineInfo &li, SplitM
 	case 8: if (!li.counts.empty()) {
 		size_t c = li.counts[g.below(li.counts.size())]; if (c < ls.size()) {
 			std::string nv = cvals[g.below(24)];
-			if (li.in_q(c) && nv.find_first_not_of(" ") == nv.npos) nv = "9";
 			ls[c] = nv; how = "count-special"; return join(ls, final_nl); } }
 		// fall through
 	case 9: how = "nondigit"; if (!ls[L].empty()) ls[L][g.below(ls[L].size())] = "#!$%&()*,./:;<=>?@[]_{}~|^"[g.below(26)]; else ls[L] = "#"; return join(ls, final_nl);
-	case 10: how = "blank-line"; if (li.in_q(L)) ls[L] = "#"; else ls[L] = g.coin() ? "" : (g.coin() ? " " : "\t "); return join(ls, final_nl);
-	case 11: how = "long-line"; { size_t n = g.below(3) == 0 ? 4094 : (g.coin() ? 4095 : 4096 + g.below(3000)); ls[L] = std::string(n, "1Zz9"[g.below(4)]); if (li.in_q(L)) ls[L] = "9" + ls[L]; } return join(ls, final_nl);
+	case 10: how = "blank-line"; ls[L] = g.coin() ? "" : (g.coin() ? " " : "\t "); return join(ls, final_nl);
+	case 11: how = "long-line"; { size_t n = g.below(3) == 0 ? 4094 : (g.coin() ? 4095 : 4096 + g.below(3000)); ls[L] = std::string(n, "1Zz9"[g.below(4)]); } return join(ls, final_nl);
 	case 12: how = "dup-line"; ls.insert(ls.begin() + L, ls[L]); return join(ls, final_nl);
 	case 13: how = "cr"; ls[L] += "\r"; return join(ls, final_nl);
-	case 14: how = "byte"; { if (ls[L].empty()) ls[L] = "0"; size_t p = g.below(ls[L].size() + 1); char c = (char)g.below(256); if (c == '\n') c = 0; if (li.in_q(L) && p == 0) p = 1; ls[L].insert(p, 1, c); } return join(ls, final_nl);
-	default: how = "swap-lines"; { size_t M = g.below(ls.size()); if (li.in_q(L) || li.in_q(M)) { ls[L] += "0"; } else std::swap(ls[L], ls[M]); } return join(ls, final_nl);
+	case 14: how = "byte"; { if (ls[L].empty()) ls[L] = "0"; size_t p = g.below(ls[L].size() + 1); char c = (char)g.below(256); if (c == '\n') c = 0; ls[L].insert(p, 1, c); } return join(ls, final_nl);
+	default: how = "swap-lines"; { size_t M = g.below(ls.size()); std::swap(ls[L], ls[M]); } return join(ls, final_nl);
 	}
 }
 
